@@ -58,10 +58,10 @@ func vfExpected(caller AuthContext, access ResourceAccess, action Action) bool {
 	return zzvf.Or(zzvf.And(isSys, caller.IsSystem), zzvf.And(zzvf.Not(isSys), normal))
 }
 
-func vfScenario() (context.Context, AuthContext, string, ResourceAccess, Action) {
-	maxEntries := 1 // quick tier: grant maps of 0..1 entries; thorough: 0..2
+func vfScenario(thoroughEntries int) (context.Context, AuthContext, string, ResourceAccess, Action) {
+	maxEntries := 1 // quick tier: grant maps of 0..1 entries; thorough: 0..thoroughEntries
 	if zzvf.Thorough() {
-		maxEntries = 2
+		maxEntries = thoroughEntries
 	}
 	caller := AuthContext{UserID: zzvf.Str("userID"), Roles: vfStrs("callerRole", 2), IsSystem: zzvf.Bool("isSystem")}
 	access := ResourceAccess{
@@ -79,7 +79,7 @@ func vfScenario() (context.Context, AuthContext, string, ResourceAccess, Action)
 // access record and action; strings are opaque values the solver may equate with the
 // constants ("Admin", "*", "system", "public", "", "read", ...).
 func VerifC34Authorize() {
-	ctx, caller, _, access, action := vfScenario()
+	ctx, caller, _, access, action := vfScenario(2)
 	got := Authorize(ctx, access, action)
 	want := vfExpected(caller, access, action)
 	zzvf.Assert(got == want, "authorize-equals-reference-decision")
@@ -93,7 +93,7 @@ func VerifC34Authorize() {
 // VerifC34Policy: core resources are never writable or deletable; otherwise the policy
 // functions agree with Authorize; the UI capability map agrees with enforcement.
 func VerifC34Policy() {
-	ctx, caller, resource, access, action := vfScenario()
+	ctx, caller, resource, access, action := vfScenario(1) // two entries per grant map exceed a million paths here
 	err := CheckPolicy(ctx, resource, access, action)
 	core := zzvf.Or(resource == "SOP", resource == "LongTermMemory")
 	mutating := zzvf.Or(action == ActionWrite, action == ActionDelete)
